@@ -80,7 +80,28 @@ def big_project(run, rng, stats, quick):
             os.makedirs(os.path.join(root, "b_app"), exist_ok=True)
             open(os.path.join(root, "b_app", "Svc%d.java" % i), "w").write("".join(parts))
             want[os.path.join(root, "b_app", "Svc%d.java" % i)] = k + 1
+        # (methods and classes: a class of these sources is an entity of a megabyte)
         rc, so, se = C.cli(["query", "--project", root, "--query", "FROM method_declaration AS md SELECT md.getName()", "--output", "json", "--disable-metrics"], timeout=900)
+        rc2, so2, se2 = C.cli(["query", "--project", os.path.join(root, "b_app"), "--query", "FROM class_declaration AS cd SELECT cd.getName()", "--output", "json", "--disable-metrics"], timeout=900)
+        try:
+            from checks import c18 as _c18
+            doc2 = json.loads(_c18.last_json(so2))
+        except Exception:
+            doc2 = None
+        if rc2 != 0 or doc2 is None:
+            run.violation("C04:big-project-scan-failed", "the scan of large sources (class query) ends with rc=%s and no report" % rc2, dict(stderr=se2[-600:].decode("utf-8", "replace")))
+        else:
+            for e in doc2.get("result_set") or []:
+                stats["big_project_entities"] += 1
+                try:
+                    srcb = open(e["file"], "rb").read()
+                except Exception:
+                    srcb = None
+                if srcb is None or not location_ok(srcb, e["line"], e["code"].encode("utf-8")):
+                    run.violation("C04:location-mismatch", "class reported for %s line %s with a snippet of %d bytes that is not the text of the file from that line on (it ends %r)" %
+                                  (os.path.relpath(e["file"], root), e["line"], len(e["code"]), e["code"][-40:]),
+                                  dict(file=os.path.relpath(e["file"], root), line=e["line"], snippet_bytes=len(e["code"]), snippet_end=e["code"][-200:], generator="checks/c04.py big_project"))
+                    break
         run.count(("big-project", len(want)))
         stats["big_project_files"] += len(want)
         from checks import c18
